@@ -379,6 +379,8 @@ type dcase struct {
 	actions    int // actions executed in the current request
 	expData    map[string]string
 	expParam   string
+	expErr     []string        // the errors the handlers of the current request recorded with `ae`, in order (hex)
+	allAe      map[string]bool // every error text an `ae` action of this case has recorded so far
 	oracle     []string
 	isTwin     bool
 	ctxSeen    map[*rux.Context]bool
@@ -479,8 +481,17 @@ func (cs *dcase) dump(c *rux.Context) string {
 		data[k] = encAny(v)
 	}
 	errs := make([]string, len(c.Errors))
+	var mine []string
 	for i, e := range c.Errors {
 		errs[i] = hx(e.Error())
+		if cs.allAe[errs[i]] {
+			mine = append(mine, errs[i])
+		}
+	}
+	// the errors recorded with c.AddError by THIS request's handlers, in order - not those of a request that is in
+	// flight at the same time (a nested one, or the one this one is nested in)
+	if !cs.isTwin && c == cs.curCtx && strings.Join(mine, "+") != strings.Join(cs.expErr, "+") {
+		cs.oracle = append(cs.oracle, fmt.Sprintf("C10 errors: request %d recorded the errors [%s] with AddError, its context lists [%s]", cs.seq, strings.Join(cs.expErr, "+"), strings.Join(mine, "+")))
 	}
 	resp := "x"
 	switch {
@@ -600,6 +611,11 @@ func (cs *dcase) runActs(c *rux.Context, acts []dact, pos string) {
 			c.Set(a.a, a.b)
 		case "ae":
 			c.AddError(errors.New(a.a))
+			cs.expErr = append(cs.expErr, hx(a.a))
+			if cs.allAe == nil {
+				cs.allAe = map[string]bool{}
+			}
+			cs.allAe[hx(a.a)] = true
 		case "sp":
 			if c.Params == nil {
 				cs.tr("P" + pos + ".rn") // the assignment below raises the runtime error
@@ -915,6 +931,7 @@ func (cs *dcase) config(f []string) string {
 func (cs *dcase) request(f []string) (method, url string, ok bool) {
 	cs.expData = map[string]string{}
 	cs.expParam = "nil"
+	cs.expErr = nil
 	if len(f) == 0 || (f[0] != "serve" && f[0] != "serveh") {
 		return "", "", false
 	}
@@ -1831,7 +1848,7 @@ func (ctxEngine) Corpus() []Case {
 			"serve r 1 - -", "serve r 3 - -", "serve r 2 - -", "serve r 1 - -", "serve nf 0", "serve r 2 - -"}, Tag: "corpus-sethandlers"},
 		// the same through HandleContext, with a group route as the target, its own slice as the source, a 405 in between
 		{Ops: []string{"new 1 1", "route 1 d1 2 em:1,nx em:2,nx em:3,nx dp,sh:1", "route 2 s 0 dp,sh:1", "serve r 1 7661 -", "serve na 2 - -", "serve r 1 7661 -", "serve r 2 - -", "serveh r 2 - -", "serve nf 1", "serveh r 1 7662 -"}, Tag: "corpus-sethandlers"},
-		dnCtxCorpus()[0], dnCtxCorpus()[1], dnCtxCorpus()[2],
+		dnCtxCorpus()[0], dnCtxCorpus()[1], dnCtxCorpus()[2], dnCtxCorpus()[3], dnCtxCorpus()[4],
 	}
 }
 
